@@ -240,15 +240,20 @@ TlsStrip(s) ==
        IF Len(s) < 5 + n THEN [ok |-> TRUE, rest |-> s] ELSE TlsStrip(From(s, 6 + n))
 
 \* ---- parameter values seen by the shim (C08, C16, C17) ----
+\* IEEE-754: any NaN equals any NaN here (a float conversion may quiet a signalling NaN; the payload is not a value)
+IsNaN64(b) == b[8] % 128 = 127 /\ b[7] \div 16 = 15 /\ (b[7] % 16 # 0 \/ b[6] # 0 \/ b[5] # 0 \/ b[4] # 0 \/ b[3] # 0 \/ b[2] # 0 \/ b[1] # 0)
+IsNaN32(b) == b[4] % 128 = 127 /\ b[3] \div 128 = 1 /\ (b[3] % 128 # 0 \/ b[2] # 0 \/ b[1] # 0)
 InnerCmp(got, want) ==
   IF got.t # want.t THEN FALSE
-  ELSE IF want.t \in {"int", "uint", "double"} THEN got.le = want.le
+  ELSE IF want.t = "double" THEN got.le = want.le \/ (IsNaN64(got.le) /\ IsNaN64(want.le))
+  ELSE IF want.t \in {"int", "uint"} THEN got.le = want.le
   ELSE IF want.t = "null" THEN TRUE
   ELSE got.b = want.b
 ConvCmp(got, want) ==
   IF got.t = "panic" THEN FALSE
   ELSE IF want.t = "int" THEN got.t = "int" /\ got.le = want.le
-  ELSE IF want.t \in {"f32", "f64"} THEN got.t = want.t /\ got.le = want.le
+  ELSE IF want.t = "f32" THEN got.t = "f32" /\ (got.le = want.le \/ (IsNaN32(got.le) /\ IsNaN32(want.le)))
+  ELSE IF want.t = "f64" THEN got.t = "f64" /\ (got.le = want.le \/ (IsNaN64(got.le) /\ IsNaN64(want.le)))
   ELSE IF want.t = "bytes" THEN got.t = "bytes" /\ got.b = want.b
   ELSE got.t = want.t /\ got.v = want.v
 
@@ -421,6 +426,8 @@ Step ==
                        LET d == BinCellAt(e.out, 1, ty, fl) IN
                        IF ~d.ok \/ d.next # Len(e.out) + 1 THEN {V(IF isint THEN "C15" ELSE "C07", l, "encoded bytes do not decode at the column's type")}
                        ELSE IF ~BinMatch(d.d, c) THEN {V(IF isint THEN "C15" ELSE "C07", l, "accepted value is sent as a different value")}
+                                                      \cup (IF isint /\ ~InRange(MathOf(c.le, c.s), ColRange(ty, fl))
+                                                            THEN {V("C07", l, "an integer the column cannot represent was accepted and encoded as something else")} ELSE {})
                        ELSE {}
                      ELSE {})
                   ELSE
